@@ -47,7 +47,7 @@ from dataclasses import dataclass, field
 from typing import *
 from typing_extensions import Unpack, NotRequired, Required, TypedDict
 from zoneinfo import ZoneInfo
-from mashumaro import DataClassDictMixin, field_options
+from mashumaro import DataClassDictMixin, field_options, pass_through
 from mashumaro.config import BaseConfig
 from mashumaro.types import Alias
 from mashumaro.dialect import Dialect
@@ -182,7 +182,44 @@ def gen_fields_types(r, tbl, depth, n, probe):
     return [gen_type(r, tbl, depth - 1, probe) for _ in range(n)]
 
 
+def gen_strategy_class(r, tbl: Table):
+    """a class whose Config.serialization_strategy registers functions under an origin class (list / dict / deque), an
+    Annotated alias and an exact type; every other field is a scalar, so no unintended position is captured"""
+    name = tbl.fresh("D")
+    regs = r.sample([("list", ("list", ("int",)), None, "list"),
+                     ("dict", ("dict", ("str",), ("bool",)), None, "dict"),
+                     ("deque", ("deque", ("str",)), None, "collections.deque"),
+                     ("ann", ("dict", ("str",), ("int",)), "m", "Annotated[Dict[str, int], 'm']"),
+                     ("annl", ("list", ("str",)), "tag", "Annotated[List[str], 'tag']")], r.randrange(1, 4))
+    if any(k == "ann" for k, *_ in regs) and any(k == "dict" for k, *_ in regs):
+        regs = [x for x in regs if x[0] != "dict"]         # the origin key would capture the Annotated field too
+    if any(k == "annl" for k, *_ in regs) and any(k == "list" for k, *_ in regs):
+        regs = [x for x in regs if x[0] != "list"]
+    fields = []
+    strat = []
+    for i, (k, t, tag, keysrc) in enumerate(regs):
+        rt = r.choice([("str",), ("int",), ("bool",)])
+        fn = f"_cs_{name}_{i}"
+        fields.append({"name": f"s{i}", "type": t, "default": None, "init": True, "alias_meta": None, "alias_ann": None,
+                       "alias_cfg": None, "alias": None, "ann_tag": tag,
+                       "ser": ("fn", rt, gen_value(r, rt, tbl, False, 2), fn), "ser_via": "config"})
+        strat.append((keysrc, fn))
+    for j in range(r.randrange(0, 3)):
+        fields.append({"name": f"p{j}", "type": r.choice([("int",), ("str",), ("bool",), ("leaf", "date")]), "default": None, "init": True,
+                       "alias_meta": None, "alias_ann": None, "alias_cfg": None, "alias": None})
+    for f in fields:
+        f.setdefault("ser", None)
+        f["nt_override"] = None
+        f["final"] = False
+    d = {"kind": "data", "name": name, "clsname": name, "fields": fields, "tvars": [],
+         "cfg": {"omit_none": False, "nt_as_dict": False, "via_dialect": False}, "strategies": strat}
+    tbl.add(d)
+    return d
+
+
 def gen_data(r, tbl: Table, depth, probe, clsname=None, generic=False):
+    if not generic and clsname is None and r.random() < 0.06:
+        return gen_strategy_class(r, tbl)
     name = tbl.fresh("D")
     n = r.randrange(0, 5)
     fields = []
@@ -242,6 +279,22 @@ def gen_data(r, tbl: Table, depth, probe, clsname=None, generic=False):
             e.update({"name": e["name"] + str(j), "default": None, "init": True, "alias_meta": None, "alias_ann": None,
                       "alias_cfg": None, "alias": None})
         fields[0:0] = extra
+    for i, f in enumerate(fields):
+        f["ser"] = None
+        # overridden serialization of a field (default options otherwise): a function with a return annotation
+        # (the schema describes the annotated return type) or pass_through (the schema describes the declared type)
+        if not generic and not cfg["omit_none"] and f["type"][0] != "nt" and r.random() < 0.08:
+            # the function is applied to non-None values only, so the declared type must not be nullable (known
+            # finding schema-overridden-nullable); a container return annotation makes build_json_schema recurse
+            # without end (C20's business): scalar return types only
+            if r.random() < 0.6 and not nullable_spec(f["type"]) and not contains_tvar(f["type"]):
+                rt = r.choice([("str",), ("int",), ("bool",)])
+                f["ser"] = ("fn", rt, gen_value(r, rt, tbl, False, 2), f"_ser_{name}_{i}")
+            elif not contains_tvar(f["type"]):
+                f["type"] = r.choice([("int",), ("str",), ("bool",), ("list", ("int",)), ("dict", ("str",), ("int",)), ("opt", ("int",))])
+                f["ser"] = ("pass",)
+                if f["default"] is not None:
+                    f["default"] = "gen"
     for f in fields:
         f["nt_override"] = None
         f["final"] = False
@@ -597,6 +650,8 @@ def decl_src(d, tbl: Table) -> str:
             ts = ty_src(f["type"], tbl, nts)
             if f.get("alias_ann") is not None:
                 ts = f"Annotated[{ts}, Alias({f['alias_ann']!r})]"
+            if f.get("ann_tag") is not None:
+                ts = f"Annotated[{ts}, {f['ann_tag']!r}]"
             if f.get("final"):
                 ts = f"Final[{ts}]"
             opts = []
@@ -613,6 +668,13 @@ def decl_src(d, tbl: Table) -> str:
                 fo.append(f"alias={f['alias_meta']!r}")
             if f.get("nt_override") is not None:
                 fo.append(f"serialize={f['nt_override']!r}")
+            if f.get("ser") is not None:
+                if f["ser"][0] == "fn":
+                    lines.append(f"def {f['ser'][3]}(v) -> {ty_src(f['ser'][1], tbl, nts)}:\n    return {val_src(f['ser'][2])}")
+                    if f.get("ser_via") != "config":
+                        fo.append(f"serialize={f['ser'][3]}")
+                else:
+                    fo.append("serialize=pass_through")
             if fo:
                 opts.append(f"metadata=field_options({', '.join(fo)})")
             if f.get("alias_cfg") is not None:
@@ -627,6 +689,8 @@ def decl_src(d, tbl: Table) -> str:
             optlines.append("omit_none = True")
         if cfg.get("nt_as_dict"):
             optlines.append("namedtuple_as_dict = True")
+        if d.get("strategies"):
+            optlines.append("serialization_strategy = {" + ", ".join(f"{k}: {{'serialize': {fn}}}" for k, fn in d["strategies"]) + "}")
         if any_alias or optlines:
             body.append("    class Config(BaseConfig):")
             if any_alias:
